@@ -119,6 +119,9 @@ class Program:
     def __init__(self, repo: str | None = None, pkg: str = PKG):
         self.repo = repo or REPO
         self.pkg = pkg
+        # SA_NORMALISE=1: analyse the N1 normal form (unknown private helpers inlined, sa/core/normalise.py)
+        self.normalise = os.environ.get("SA_NORMALISE", "") == "1"
+        self.normal_info = {}
         self.modules: dict[str, ModuleInfo] = {}
         self.consulted: set[str] = set()
         self._load()
@@ -146,6 +149,18 @@ class Program:
                     tree = ast.parse(src, filename=path)
                 except SyntaxError as e:
                     raise AnalysisError(f"cannot parse {rel}: {e}") from e
+                if self.normalise:
+                    from .normalise import normalise_module
+                    exported = ()
+                    for st in tree.body:
+                        if isinstance(st, ast.Assign) and any(isinstance(t, ast.Name) and t.id == "__all__" for t in st.targets):
+                            try:
+                                exported = tuple(ast.literal_eval(st.value))
+                            except Exception:
+                                exported = ()
+                    tree, info = normalise_module(tree, exported)
+                    if info["call_sites"]:
+                        self.normal_info[rel] = info
                 m = ModuleInfo(name=name, path=path, relpath=rel, source=src, tree=tree, is_pkg=is_pkg)
                 self.modules[name] = m
         for m in self.modules.values():
